@@ -6,6 +6,17 @@ Anything the evaluator does not recognise raises Unsupported (never a silent ski
 """
 import ast
 
+KW_SEEN = set()
+# keyword arguments whose meaning the evaluators model (everything else fails closed); binary64 / complex128 buffers only
+KW_ALLOWED = {('np.empty', 'dtype', 'np.float64'), ('np.zeros', 'dtype', 'np.float64'), ('np.zeros', 'dtype', 'float'), ('np.zeros', 'dtype', 'complex'),
+              ('np.roll', 'axis', '0'), ('np.roll', 'axis', '1'), ('np.stack', 'axis', '-1')}
+def check_keywords(fn, kw):
+    for k, v in kw.items():
+        item = (fn.split('.')[-1] if not fn.startswith('np.') else fn, k, ast.unparse(v))
+        KW_SEEN.add(item)
+        if KW_ALLOWED is not None and item not in KW_ALLOWED and (item[0], item[1], '*') not in KW_ALLOWED:
+            raise Unsupported(f'keyword {k}={ast.unparse(v)} of {fn} has no modelled meaning')
+
 class Unsupported(Exception):
     pass
 
@@ -191,7 +202,9 @@ class Ev:
             return s.neg(s.expr(e.operand))
         if isinstance(e, ast.Attribute): return s.attr(e)
         if isinstance(e, ast.Subscript): return s.subscript(e)
-        if isinstance(e, ast.Call): return s.call(e)
+        if isinstance(e, ast.Call):
+            check_keywords(ast.unparse(e.func), {k.arg: k.value for k in e.keywords})
+            return s.call(e)
         raise Unsupported('expr ' + ast.dump(e)[:80])
     def neg(s, v):
         if isinstance(v, RM): r = RM(f'(rmopp {v.t})', v.rows, v.cols); r.sparse = getattr(v, 'sparse', False); return r
